@@ -5,7 +5,18 @@ in particular the parenthesised case, which parses the inner declarator twice (o
 closing parenthesis, then again with the type completed by the suffixes that FOLLOW the parenthesis) and the array
 case, which recurses into the following suffixes BEFORE it wraps the element type.
 
-  static Type *pointers(rest, tok, ty)        { while (consume(&tok, tok, "*")) ty = pointer_to(ty); ... }
+  static Type *pointers(rest, tok, ty) {                                       // /repo 1c76c1e
+    while (consume(&tok, tok, "*")) {
+      ty = pointer_to(ty);
+      for (;;) {
+        if (equal(tok, "const") || equal(tok, "volatile") || equal(tok, "restrict") || equal(tok, "__restrict") ||
+            equal(tok, "__restrict__")) tok = tok->next;
+        else if (equal(tok, "_Atomic")) { ty->is_atomic = true; tok = tok->next; }
+        else break;
+      }
+    }
+    *rest = tok; return ty;
+  }
   static Type *declarator(rest, tok, ty) {
     ty = pointers(&tok, tok, ty);
     if (equal(tok, "(")) {
@@ -30,7 +41,7 @@ case, which recurses into the following suffixes BEFORE it wraps the element typ
 
 The fuel bounds the recursion DEPTH (every nested call gets `fuel - 1`), which is at most the number of tokens; the
 number of steps is exponential in the nesting of parentheses (known finding of property C13), the depth is not.
-Not modelled: qualifiers after `*`, `static`/`restrict` in brackets, non-constant lengths (VLA), parameter lists other
+Not modelled: `static`/`restrict` in brackets, non-constant lengths (VLA), parameter lists other
 than `(void)`, abstract declarators (no identifier).
 -/
 import ChibiVerif.Model.C16Qual
@@ -40,14 +51,23 @@ open ChibiVerif.C16Qual
 
 inductive DTok where
   | star | lp | rp | ident | lb | num (n : Nat) | rb | void_
+  | qual (q : PQual)          -- `const` `volatile` `restrict` `__restrict` `__restrict__` `_Atomic`
   deriving DecidableEq, Repr, Inhabited
 
 /-- `Type dummy = {};` -/
 def dummy : Ty := .void false
 
-/-- `pointers` -/
+/-- `pointers`, inside the `for (;;)` that follows a `*` (`ty` is the pointer type made for that `*`): a qualifier is
+    consumed (`_Atomic` marks `ty`), anything else leaves the `for`; the enclosing `while` then either consumes the next
+    `*` - a new pointer type, and the `for` is entered again - or stops -/
+def qualsT : List DTok → Ty → Ty × List DTok
+  | .qual q :: ts, ty => qualsT ts (q.applyTo ty)
+  | .star :: ts, ty => qualsT ts (pointerTo ty)
+  | ts, ty => (ty, ts)
+
+/-- `pointers`: a qualifier that is not preceded by a `*` is not consumed -/
 def pointersT : List DTok → Ty → Ty × List DTok
-  | .star :: ts, ty => pointersT ts (pointerTo ty)
+  | .star :: ts, ty => qualsT ts (pointerTo ty)
   | ts, ty => (ty, ts)
 
 /-- `func_params`, the `(void)` form -/
@@ -88,11 +108,11 @@ def declaratorT : Nat → List DTok → Ty → Option (Ty × List DTok)
     parentheses) -/
 def toks : Declr → List DTok
   | .name => [.ident]
-  | .ptr d => .star :: toks d
+  | .ptr d qs => .star :: (qs.map .qual ++ toks d)
   | .arr d n =>
-    (match d with | .ptr _ => .lp :: toks d ++ [.rp] | _ => toks d) ++ [.lb, .num n, .rb]
+    (match d with | .ptr _ _ => .lp :: toks d ++ [.rp] | _ => toks d) ++ [.lb, .num n, .rb]
   | .fn d =>
-    (match d with | .ptr _ => .lp :: toks d ++ [.rp] | _ => toks d) ++ [.lp, .void_, .rp]
+    (match d with | .ptr _ _ => .lp :: toks d ++ [.rp] | _ => toks d) ++ [.lp, .void_, .rp]
   | .paren d => .lp :: toks d ++ [.rp]
 
 end ChibiVerif.C16Declr
